@@ -1225,6 +1225,8 @@ def m_set(ex, *args):
 
 def m_enumerate(ex, it, start=0):
     items = ex.concrete_iter(it)
+    if items is None and ex.skeleton and isinstance(it, Unknown):
+        return Unknown('enumerate')
     if items is None:
         raise Unsupported('enumerate over symbolic iterable')
     return ConcIter([(start + i, x) for i, x in enumerate(items)])
@@ -1232,6 +1234,8 @@ def m_enumerate(ex, it, start=0):
 
 def m_zip(ex, *its, **kw):
     lists = [ex.concrete_iter(i) for i in its]
+    if ex.skeleton and any(isinstance(i, Unknown) for i in its):
+        return Unknown('zip')
     if any(l is None for l in lists):
         raise Unsupported('zip over symbolic iterable')
     return ConcIter([tuple(t) for t in zip(*lists)])
